@@ -33,7 +33,11 @@ pub fn constants(
             rpl.backward()?
                 .into_iter()
                 .fold(Constants::new(), |c, location| {
-                    c.join(&constants[&location.into()])
+                    // predecessors which are unreachable from the entry have no state
+                    match constants.get(&location.into()) {
+                        Some(state) => c.join(state),
+                        None => c,
+                    }
                 }),
         );
     }
